@@ -3,6 +3,7 @@ SPECIFICATION Spec
 CONSTANTS
   EPs = {"station.ingest", "regproc", "api", "dnsreg", "responder"}
   Strength = 3
+  Thin = TRUE
   MissingGuards = {}
 INVARIANTS TypeOK NeverCrash NeverHangs NoFourthValue AlwaysAnswersHTTP AcceptedOnlyWhenComplete StatusMatchesOutcome NominalAccepted
 CHECK_DEADLOCK FALSE
